@@ -1,3 +1,25 @@
 import Driver.Loop
 import Driver.C03Ops
-def main : IO Unit := Driver.run Driver.c03Ops
+import RegionsVerif.Gen.EllipseExactFloat
+
+namespace Driver
+open Lean RegionsVerif.Gen
+
+/-- one grid cell of the ellipse 'exact' kernel, Float instance of `Gen/EllipseExact*`
+(doubles in and out as 64-bit patterns, like `exact.cell`). -/
+def c03EllipseOps : List (String × Handler) := [
+  ("exact.ecell", fun j => do
+    match EllipseExactFloat.ellipseCell (← fBits j "pxmin") (← fBits j "pymin") (← fBits j "dx") (← fBits j "dy")
+        (← fBits j "rx") (← fBits j "ry") (← fBits j "theta") with
+    | some v => pure (Json.mkObj [("ok", ofBits v)])
+    | none => pure (Json.mkObj [("ok", jNone)])),
+  ("exact.etri", fun j => do
+    match EllipseExactFloat.overlapTri 8 (← fBits j "x1") (← fBits j "y1") (← fBits j "x2") (← fBits j "y2")
+        (← fBits j "x3") (← fBits j "y3") with
+    | some v => pure (Json.mkObj [("ok", ofBits v)])
+    | none => pure (Json.mkObj [("ok", jNone)]))
+]
+
+end Driver
+
+def main : IO Unit := Driver.run (Driver.c03Ops ++ Driver.c03EllipseOps)
